@@ -95,6 +95,21 @@ Lemma gen_update_count :
 Proof. exact (eq_trans (update_core_count T Nm eigh P st spop _) (eq_sym (gen_count_eq T Nm P st ps'))). Qed.
 End Update.
 
+(* ---- Strategy.__init__: chiN ------------------------------------------------------------------- *)
+Lemma gen_chiN_eq :
+  forall (T : Type) (Nm : Num T) (dim : nat), gen_chiN Nm dim = chiN_of Nm dim.
+Proof. intros. unfold gen_chiN, chiN_of. gnorm. gclose. Qed.
+
+(* the chiN attribute of a freshly constructed strategy is the REGENERATED expression at len(centroid) *)
+Lemma gen_init_chiN :
+  forall (T : Type) (Nm : Num T) eigh dl (centroid : list T) (sigma : T) (k : kargs),
+    p_chiN (fst (init Nm eigh dl centroid sigma k)) = gen_chiN Nm (length centroid).
+Proof.
+  intros. rewrite gen_chiN_eq. unfold init. cbv zeta.
+  match goal with |- context [decompose ?a ?b ?c] => destruct (decompose a b c) as [[? ?] ?] end.
+  reflexivity.
+Qed.
+
 (* ---- Strategy.__init__: default lambda_ (float instance) ------------------------------------- *)
 Lemma gen_default_lambda_eq : forall dim : nat, gen_default_lambda dim = default_lambda dim.
 Proof. intros. unfold gen_default_lambda, default_lambda. reflexivity. Qed.
